@@ -8,7 +8,7 @@ import WtfModel.Props.C11
 #print axioms Wtf.C11.lru_readers_pure
 #print axioms Wtf.C11.linearizable_lru
 #print axioms Wtf.C11.cached_hits_agree
-#print axioms Wtf.C11.checker_sound
+#print axioms Wtf.C11.checker_correct
 #print axioms Wtf.C11.search_writes_nothing
 #print axioms Wtf.C11.search_alone
 #print axioms Wtf.C11.search_torn_if_written
